@@ -119,12 +119,69 @@ func (r *rewriter) stmtPre(s ast.Stmt) ast.Stmt {
 	if !r.full {
 		return nil
 	}
+	if ss, ok := s.(*ast.SelectStmt); ok {
+		return r.selectDefault(ss)
+	}
 	if as, ok := s.(*ast.AssignStmt); ok && len(as.Lhs) == 2 && len(as.Rhs) == 1 {
 		if u, ok := as.Rhs[0].(*ast.UnaryExpr); ok && u.Op == token.ARROW {
 			r.usedSch = true
 			as.Rhs[0] = call(sel("vsched", "Recv2"), u.X)
 		}
 	}
+	return nil
+}
+
+// selectDefault turns the one supported select form, a single communication case plus default,
+// into an if statement on vsched.TrySend / vsched.TryRecv (done pre-order, so the bodies are still
+// rewritten afterwards). Any other select is refused.
+func (r *rewriter) selectDefault(ss *ast.SelectStmt) ast.Stmt {
+	line := r.fset.Position(ss.Pos()).Line
+	var comm, def *ast.CommClause
+	for _, c := range ss.Body.List {
+		cc := c.(*ast.CommClause)
+		if cc.Comm == nil {
+			def = cc
+		} else if comm == nil {
+			comm = cc
+		} else {
+			die("%s:%d: select with more than one communication case is not supported by the rewriter", r.file, line)
+		}
+	}
+	if comm == nil || def == nil {
+		die("%s:%d: select without a default case is not supported by the rewriter", r.file, line)
+	}
+	r.usedSch = true
+	elseBlk := &ast.BlockStmt{List: def.Body}
+	switch c := comm.Comm.(type) {
+	case *ast.SendStmt:
+		return &ast.IfStmt{Cond: call(sel("vsched", "TrySend"), c.Chan, c.Value), Body: &ast.BlockStmt{List: comm.Body}, Else: elseBlk}
+	case *ast.ExprStmt: // case <-ch:
+		u, ok := c.X.(*ast.UnaryExpr)
+		if !ok || u.Op != token.ARROW {
+			die("%s:%d: unsupported select case", r.file, line)
+		}
+		r.tmp++
+		okID := ast.NewIdent(fmt.Sprintf("vschedS%d", r.tmp))
+		init := &ast.AssignStmt{Lhs: []ast.Expr{ast.NewIdent("_"), ast.NewIdent("_"), okID}, Tok: token.DEFINE, Rhs: []ast.Expr{call(sel("vsched", "TryRecv"), u.X)}}
+		return &ast.IfStmt{Init: init, Cond: okID, Body: &ast.BlockStmt{List: comm.Body}, Else: elseBlk}
+	case *ast.AssignStmt: // case v := <-ch: / case v, ok := <-ch: / with = instead of :=
+		u, ok := c.Rhs[0].(*ast.UnaryExpr)
+		if !ok || u.Op != token.ARROW || len(c.Rhs) != 1 {
+			die("%s:%d: unsupported select case", r.file, line)
+		}
+		r.tmp++
+		vID, kID, sID := ast.NewIdent(fmt.Sprintf("vschedV%d", r.tmp)), ast.NewIdent(fmt.Sprintf("vschedK%d", r.tmp)), ast.NewIdent(fmt.Sprintf("vschedS%d", r.tmp))
+		init := &ast.AssignStmt{Lhs: []ast.Expr{vID, kID, sID}, Tok: token.DEFINE, Rhs: []ast.Expr{call(sel("vsched", "TryRecv"), u.X)}}
+		rhs := []ast.Expr{vID}
+		if len(c.Lhs) == 2 {
+			rhs = append(rhs, kID)
+		}
+		bind := &ast.AssignStmt{Lhs: c.Lhs, Tok: c.Tok, Rhs: rhs}
+		use := &ast.AssignStmt{Lhs: []ast.Expr{ast.NewIdent("_"), ast.NewIdent("_")}, Tok: token.ASSIGN, Rhs: []ast.Expr{vID, kID}}
+		body := append([]ast.Stmt{use, bind}, comm.Body...)
+		return &ast.IfStmt{Init: init, Cond: sID, Body: &ast.BlockStmt{List: body}, Else: elseBlk}
+	}
+	die("%s:%d: unsupported select case", r.file, line)
 	return nil
 }
 
